@@ -435,6 +435,7 @@ func runC11(c *mon.Ctx) {
 				supplied[p.EventID()] = true
 			}
 			c.Case("permute:"+string(ver), describeScenario(sc, nil), func() {
+				fpBefore := fingerprintPDUs(sc.stateSets, authList)
 				base, err := gmsl.ResolveConflictsNew(ver, sc.stateSets, authList, userIDForSender, noRej)
 				if err != nil {
 					c.Failf("stateres:error", "%v", err)
@@ -507,9 +508,42 @@ func runC11(c *mon.Ctx) {
 						}
 						auth = shufflePDUs(pr, append(auth, extra...))
 					}
+					if kind == "auth-reloaded" || kind == "auth-duplicated-reloaded" || kind == "sets-reloaded" {
+						// the same events as other objects: a caller that loads the auth events (or the state sets) from its
+						// store separately holds two objects for one event
+						impl := gmsl.MustGetRoomVersion(ver)
+						reload := func(p gmsl.PDU) gmsl.PDU {
+							if q, err := impl.NewEventFromTrustedJSONWithEventID(p.EventID(), p.JSON(), false); err == nil {
+								return q
+							}
+							return p
+						}
+						if kind == "sets-reloaded" {
+							for i := range sets {
+								s2 := make([]gmsl.PDU, len(sets[i]))
+								for j, p := range sets[i] {
+									s2[j] = reload(p)
+								}
+								sets[i] = s2
+							}
+						} else {
+							for i, p := range auth {
+								auth[i] = reload(p)
+							}
+							if kind == "auth-duplicated-reloaded" && t.StateRes != 1 {
+								n := len(auth)
+								for i := 0; i < n; i++ {
+									if pr.Chance(0.6) {
+										auth = append(auth, reload(auth[i]))
+									}
+								}
+								auth = shufflePDUs(pr, auth)
+							}
+						}
+					}
 					return sets, auth
 				}
-				for _, kind := range []string{"repeat", "repeat", "repeat", "repeat", "repeat", "set-order", "set-order-reversed", "set-rotated", "events-in-sets", "auth-order", "auth-reversed", "auth-duplicated", "all"} {
+				for _, kind := range []string{"repeat", "repeat", "repeat", "repeat", "repeat", "auth-reloaded", "auth-duplicated-reloaded", "sets-reloaded", "set-order", "set-order-reversed", "set-rotated", "events-in-sets", "auth-order", "auth-reversed", "auth-duplicated", "all"} {
 					sets, auth := variant(kind)
 					got, err := gmsl.ResolveConflictsNew(ver, sets, auth, userIDForSender, noRej)
 					c.Count("presentation|" + kind)
@@ -517,6 +551,42 @@ func runC11(c *mon.Ctx) {
 						c.Failf(fmt.Sprintf("order-dependence:alg%d:new-entry-point:%s", t.StateRes, kind), "v%s: ResolveConflictsNew returns a different state under presentation %q\n base: %v\n now:  %v", ver, kind, short(idsOf(base)), short(idsOf(got)))
 						return
 					}
+				}
+				// a history: the same events resolved with an auth chain that has holes in it (a server that has not fetched
+				// everything yet), then once more with the full chain - the answer to the full question does not depend on
+				// what was asked before, and nobody's events are touched
+				{
+					holes := map[int]bool{}
+					for n := 1 + pr.Intn(3); n > 0 && len(authList) > 2; n-- {
+						holes[pr.Intn(len(authList))] = true
+					}
+					var partial []gmsl.PDU
+					for i, p := range authList {
+						if !holes[i] || p.Type() == "m.room.create" {
+							partial = append(partial, p)
+						}
+					}
+					var k1, k2 string
+					var e1, e2 error
+					site, msg, pan := mon.Guard(func() {
+						var r1, r2 []gmsl.PDU
+						r1, e1 = gmsl.ResolveConflictsNew(ver, sc.stateSets, partial, userIDForSender, noRej)
+						r2, e2 = gmsl.ResolveConflictsNew(ver, sc.stateSets, partial, userIDForSender, noRej)
+						k1, k2 = resultKey(r1), resultKey(r2)
+					})
+					c.Count("presentation|auth-chain-with-holes")
+					if pan {
+						c.Failf("stateres:panic:auth-chain-with-holes:"+site, "v%s: resolving with an incomplete auth chain panics: %s", ver, msg)
+					} else if (e1 == nil) != (e2 == nil) || k1 != k2 {
+						c.Failf(fmt.Sprintf("order-dependence:alg%d:auth-chain-with-holes:repeat", t.StateRes), "v%s: two identical resolutions with an incomplete auth chain differ\n first:  %v %v\n second: %v %v", ver, k1, e1, k2, e2)
+					}
+					again, err := gmsl.ResolveConflictsNew(ver, sc.stateSets, authList, userIDForSender, noRej)
+					if err != nil || resultKey(again) != baseKey {
+						c.Failf(fmt.Sprintf("order-dependence:alg%d:history:after-an-auth-chain-with-holes", t.StateRes), "v%s: the same state sets and auth events resolve differently after a resolution with an incomplete auth chain in between\n base: %v\n now:  %v", ver, short(idsOf(base)), short(idsOf(again)))
+					}
+				}
+				if fpNow := fingerprintPDUs(sc.stateSets, authList); fpNow != fpBefore {
+					c.Failf("stateres:input-events-modified", "v%s: state resolution changed the events it was given (auth / prev references or JSON of a supplied event read differently afterwards)", ver)
 				}
 				// all sets equal -> that state
 				same := [][]gmsl.PDU{sc.stateSets[0], shufflePDUs(pr, sc.stateSets[0]), sc.stateSets[0]}
@@ -849,4 +919,25 @@ func v1AncestorScenario(sr *gen.Rand, ver gmsl.RoomVersion) (*sim, [][]gmsl.PDU,
 		}
 	}
 	return s, sets, auth, victim, ""
+}
+
+// fingerprintPDUs is what the supplied events say about themselves: ID, auth and prev references, JSON.
+func fingerprintPDUs(sets [][]gmsl.PDU, auth []gmsl.PDU) string {
+	h := sha256.New()
+	one := func(p gmsl.PDU) {
+		if p == nil {
+			return
+		}
+		fmt.Fprintf(h, "%s|%q|%q|", p.EventID(), p.AuthEventIDs(), p.PrevEventIDs())
+		h.Write(p.JSON())
+	}
+	for _, s := range sets {
+		for _, p := range s {
+			one(p)
+		}
+	}
+	for _, p := range auth {
+		one(p)
+	}
+	return fmt.Sprintf("%x", h.Sum(nil))
 }
